@@ -192,6 +192,11 @@ class Termizer:
             a = self.term(n["th"])
             b = self.term(n["el"])
             if a[0] != "unk" and b[0] != "unk":
+                # one polarity for a two-way choice: `if x != y {A} else {B}` is `if x == y {B} else {A}`
+                if ct[0] == "op" and len(ct) == 4 and ct[1] == "!=":
+                    return ("ite", mk_op("==", ct[2], ct[3]), b, a)
+                if ct[0] == "un" and ct[1] == "!":
+                    return ("ite", ct[2], b, a)
                 return ("ite", ct, a, b)
             return self.fresh(n)
         if k == "Tup":
